@@ -54,9 +54,12 @@ claim('C04',
       'table holds exactly the demands of the machine\'s items (table_spec); every grammar the model of generate accepts is unambiguous and '
       'its emitted parser is a correct recogniser (all grammars, no validator); the lookahead sets of the machine are the least solution of the '
       'LALR(1) propagation rules over its own LR(0) automaton (Build/DerProofs.v), and a table is produced if and only if no two items of one '
-      'state demand different actions on one lookahead (exactness w.r.t. that automaton; Build/NoPanic.v table_iff_conflict_free). Not proved: that this characterisation coincides with the '
-      'textbook definition (Ok iff the automaton obtained by merging canonical LR(1) item sets by core is conflict-free); it is decided per '
-      'grammar by comparing the crate and the model with a brute-force canonical-LR(1)-then-merge reference on generated and textbook grammars.',
+      'state demand different actions on one lookahead (exactness w.r.t. that automaton; Build/NoPanic.v table_iff_conflict_free); and that '
+      'automaton IS the textbook one, for every validated file, accepted or rejected (Build/CanonMachine.v, Build/FirstLeast.v): each state is the '
+      'union of the canonical LR(1) item sets I(g) over the viable prefixes g leading to it, each I(g) has exactly the state\'s core, distinct states '
+      'have distinct cores, and the FIRST map behind the closure is exactly FIRST/nullable (closed and least) — so Ok iff the canonical LR(1) sets '
+      'merged by core are conflict-free. The crate and the model are still compared with a brute-force canonical-LR(1)-then-merge reference on '
+      'generated and textbook grammars, and the FIRST map alone (hook first_sets) with FIRST by its defining rules.',
       COMMON_NOTE, 'Coq proof (builder-table invariant, table_spec, generator invariants) + differential against brute-force LALR(1) reference', 'DESIGN.md §5 C04')
 claim('C05',
       'Coq theorem: the twelve generated helper identifiers are pairwise distinct and differ from all user identifiers. rustc acceptance of '
@@ -104,8 +107,10 @@ claim('C10',
 claim('C11',
       'Coq theorem: a TableConflict of the model names a state of the machine, two items of it demanding different actions on one lookahead, '
       'and attaches the given file and machine; and the machine the generator builds is the LALR(1) automaton in the least-fixpoint sense: closed '
-      'item sets, one state per LR(0) core, deterministic complete transitions, every item derivable (lookaheads least). Equivalence with the '
-      'textbook canonical-LR(1)-merge definition is decided per grammar against the brute-force reference.',
+      'item sets, one state per LR(0) core, deterministic complete transitions, every item derivable (lookaheads least) — which IS the textbook '
+      'definition (Build/CanonMachine.v): each state is the union of the canonical LR(1) item sets I(g) over the viable prefixes g leading to it, '
+      'each I(g) has exactly its core, and the FIRST map is exactly FIRST/nullable (Build/FirstLeast.v). Every sampled machine is still compared '
+      'with a brute-force LALR(1) reference, and the FIRST map alone (hook first_sets) with FIRST by its defining rules.',
       COMMON_NOTE, 'Coq proof (builder-table invariant) + differential + brute-force LALR(1) isomorphism', 'DESIGN.md §5 C11')
 claim('C12',
       'Coq theorems: attributes are emitted verbatim, one per line, immediately before their type definition. Byte-exactness and "nowhere else" '
@@ -143,7 +148,10 @@ claim('C17',
       'the same for the tables of every grammar the model of generate accepts, with the machine\'s own item sets as annotation (closed states, '
       'distinct cores, deterministic complete transitions, targets with the core of the advanced kernel\'s closure), and the lookahead sets are '
       'LEAST: an item is in a state exactly when it is derivable from the start item by the closure rule and by following transitions '
-      '(Build/DerProofs.v, LR/Least.v). Equivalence of this least-fixpoint characterisation with the textbook merge of canonical LR(1) states, i.e. exactness w.r.t. the canonical LALR(1) lookahead sets is decided per grammar: tables read from the real text = model = brute-force reference.',
+      '(Build/DerProofs.v, LR/Least.v); and that is the textbook definition (LR/CanonLR1.v, LR/FirstExact.v): the annotation of a state is exactly the '
+      'union of the canonical LR(1) item sets I(g) over the viable prefixes g whose path through the tables ends in it, each I(g) has exactly its '
+      'core, and the FIRST table is exactly FIRST/nullable of the grammar. Tables read from the real text = model = brute-force reference is '
+      'checked per sampled grammar, and the FIRST map alone (hook first_sets) against FIRST by its defining rules.',
       COMMON_NOTE, 'Coq proof (generator invariants) + Coq validator on real tables + differential against brute-force LALR(1) reference', 'DESIGN.md §5 C17')
 claim('C18',
       'Coq theorems over the executable model of Oset (insert/contains/from_iter/extend as sorted-list functions): for every '
